@@ -596,14 +596,35 @@ def _random_histories(ctx: Ctx, n: int) -> list[tuple[tuple[int, int], list]]:
     return out
 
 
+def _play_job(job: tuple) -> list[dict]:
+    return play(*job)
+
+
 def _run_histories(ctx: Ctx, hs: list[tuple[tuple[int, int], list]], base_id: int, source: str) -> list[dict]:
-    rows = []
+    """Each history is played against its own World (own KeyCache, own reference DC): histories are independent, so
+    they are played in forked worker processes (the derivation graph is exported before forking)."""
+    import concurrent.futures as cf
+    import multiprocessing as mp
+    import os
+
     hashes = ["SHA512", "SHA256", "SHA1", "SHA384"]
+    jobs, metas = [], []
     for i, (now, hist) in enumerate(hs):
         now_l0 = 2
         if isinstance(now[1], (tuple, list)):
             now_l0, now = now[0], tuple(now[1])
-        evs = play(ctx.seed * 100003 + base_id + i, now, hist, hashes[(i + ctx.seed) % 4], now_l0)
+        jobs.append((ctx.seed * 100003 + base_id + i, now, hist, hashes[(i + ctx.seed) % 4], now_l0))
+        metas.append((now, now_l0, hist))
+    from .. import gkdiref
+    gkdiref.graph(ctx)
+    nproc = max(1, min(12, (os.cpu_count() or 2) - 2, int(os.environ.get("VERIF_PLAY_PROCS", "12"))))
+    if nproc == 1 or len(jobs) < 8:
+        results = [_play_job(j) for j in jobs]
+    else:
+        with cf.ProcessPoolExecutor(max_workers=nproc, mp_context=mp.get_context("fork")) as ex:
+            results = list(ex.map(_play_job, jobs, chunksize=8))
+    rows = []
+    for i, (evs, (now, now_l0, hist)) in enumerate(zip(results, metas)):
         rows.append({"id": base_id + i, "now": list(now), "nowl0": now_l0, "defrk": "rk1", "events": evs, "source": source, "hist": hist})
         ctx.distinct(json.dumps(hist))
     return rows
